@@ -98,6 +98,8 @@ class C01(Plugin):
         # every insertion mode x every start/end tag of the dispatch tables (and a few others) x continuations
         for m in gen_markup.phase_directed(gen_markup.dispatch_keys()):
             out.append({"markup": m, "fragment": False, "container": "div", "scripting": False, "ns": True})
+        for c, m in gen_markup.fragment_directed(gen_markup.dispatch_keys()):
+            out.append({"markup": m, "fragment": True, "container": c, "scripting": False, "ns": True})
         # formatting elements that differ only in attribute values / names (Noah's Ark, adoption agency)
         for f in ("b", "a", "font", "nobr"):
             for attrs in (["class=a", "class=b", "class=c", "class=d"], ["class=a"] * 4, ["id=a", "class=a", "id=a", "id=a title=t"],
